@@ -1,6 +1,7 @@
 import Csproto.Props.C04
 import Csproto.Bridge.Templates
 import Csproto.Props.C04Ext
+import Csproto.Props.C04FirstUse
 /- axiom audit for C04 -/
 #print axioms Csproto.C04.size_exact
 #print axioms Csproto.C04.marshalTo_fills
@@ -25,3 +26,8 @@ import Csproto.Props.C04Ext
 #print axioms Csproto.Ext.roundtrip
 #print axioms Csproto.Bridge.Templates.extension_arms_total
 #print axioms Csproto.Bridge.Templates.extension_repeated_arms
+-- C04Ext: extensions during the concurrent first use of a type
+#print axioms Csproto.C04Ext.agree_when_answers_constant
+#print axioms Csproto.C04Ext.first_use_agree
+#print axioms Csproto.C04Ext.placeholder_answer_breaks_it
+#print axioms Csproto.C04Ext.fact_type_cache_protocol
